@@ -168,6 +168,11 @@ fn spawn_probe_terminal(role: u8, cfg: SpawnCfg, order: u8, detached: bool) -> O
         match order {
             0 => b = b.timeout(t).fail_on_timeout(fail),
             1 => b = b.fail_on_timeout(fail).timeout(t),
+            // the limit is given twice: a tiny one and the other answer to fail_on_timeout first,
+            // then - after the mailbox - the ones that count (4); or the ones that count first
+            // and, overwritten right away, again (5)
+            4 => b = b.timeout(crate::world::ms(1)).fail_on_timeout(!fail),
+            5 => b = b.timeout(crate::world::ms(1)).fail_on_timeout(!fail).timeout(t).fail_on_timeout(fail),
             _ => {}
         }
     }
@@ -176,7 +181,7 @@ fn spawn_probe_terminal(role: u8, cfg: SpawnCfg, order: u8, detached: bool) -> O
         Mailbox::B(n) => b.bounded(n),
     };
     let b = match (cfg.timeout, order) {
-        (Some((t, fail)), 2) => b.timeout(crate::world::ms(t)).fail_on_timeout(fail),
+        (Some((t, fail)), 2 | 4) => b.timeout(crate::world::ms(t)).fail_on_timeout(fail),
         (Some((t, fail)), 3) => b.fail_on_timeout(fail).timeout(crate::world::ms(t)),
         _ => b,
     };
